@@ -133,6 +133,23 @@ fn main() {
                 }
             }
         }
+        // the highlight attribute equal to the attribute of the first / second coloured range (a theme whose match colour
+        // is a colour of the text): the highlight still covers exactly its own range
+        for same in [1u32, 2] {
+            for o in &olds {
+                for nw in &news0 {
+                    if nw.is_empty() { continue; }
+                    let nws: Vec<Fr> = nw.iter().map(|(_, r)| (same, *r)).collect();
+                    evaluations += 1;
+                    match run_impl(o, &nws, exh_n) {
+                        Err(e) => { if fails.len() < 20 { fails.push(OracleFailure { case: 3_000_000 + evaluations, what: format!("panic: {}", e), known: None, input: format!("old={:?} new(attribute of a coloured range)={:?} n={}", o, nws, exh_n) }); } }
+                        Ok(run) => if let Some(m) = oracle(o, &nws, exh_n, &run) {
+                            if fails.len() < 20 { fails.push(OracleFailure { case: 3_000_000 + evaluations, what: m, known: None, input: format!("old={:?} new(attribute of a coloured range)={:?} n={}", o, nws, exh_n) }); }
+                        }
+                    }
+                }
+            }
+        }
         dist.add(format!("exhaustive n={} pairs={}", exh_n, evaluations));
     }
     // 2. sampled + random cases, also evaluated on the Coq model
